@@ -25,7 +25,7 @@ def run(tier, t0):
         ctir.run_ir(rep)
         rep.floor("ir_wrappers", 200)
         rep.floor("ir_functions_reached", 100)
-    rep.floor("entry_points", 4000)
+    rep.floor("entry_points", 3500)
     rep.floor("abort_guard_branches_skipped", 10)
     return finish(rep, tier, t0,
                   explanation="MIR-level (source-level) interprocedural label-flow of secret operands to control flow, "
